@@ -39,6 +39,30 @@ CHECKS = {
    technique="TLA+ model (Integrator.tla 2D abstraction) checked exhaustively with TLC + replay / trace validation on the real integrator and both filters",
    ref="DESIGN.md s6 C13"),
 }
+
+CHECKS.update({
+ "C07": dict(
+   text="KalmanExact.tla computes the textbook conditional-Gaussian update in exact rationals (Exact.tla) for a fixed family of integer instances (n<=4 states, <=5 observations in <=3 independent blocks; diagonal, dense, rank-deficient and zero priors; zero and dependent H rows); TLC explores every ordering of the blocks and checks order independence (= the joint stacked update), the information form where P0 is invertible, symmetry, positive semidefiniteness by all principal minors, and posterior <= prior. Every step of every ordering is replayed with kalman.correct on floats (also under exact power-of-two rescaling of the state) and compared with the exact state at 1e-9; the innovation is checked against the lower-Cholesky whitening relations in square-root-free form; inputs must stay unmodified; the joint call must equal the sequential end state.",
+   note="Decided on the exact domain only: conditioning up to 1e10 / R scales 1e+-8 / dimensions up to 20 x 6 are numeric behaviour of the Joseph form and are not decided. The oracle is independent of the code's route (cofactor inverse vs Cholesky solve; P - KHP vs Joseph form).",
+   technique="TLA+ model in exact rational arithmetic (KalmanExact.tla) checked with TLC over all block orderings + replay of every explored path into kalman.correct",
+   ref="DESIGN.md s6 C07"),
+ "C08": dict(
+   text="ProcessExact.tla defines Phi(t) and Qd(t) for nilpotent integer F directly from the integrals as finite rational sums and explores with TLC every partition (in every order) of the total step 3 into sub-steps from {1/2,1,2}: the accumulated transition/noise matrices equal the one-shot ones of the elapsed time (Composes), Qd symmetric PSD (all principal minors), zero step. Every explored path is replayed with kalman.compute_process_matrices on floats against the exact matrices at 1e-9. TLC's partitions are also applied to seeded random general systems (stable/unstable/defective/zero/nilpotent, n<=24, singular Q, dt up to 10): composition vs the routine's one-shot value, the independent residual F Qd + Qd F' + Q - Phi Q Phi' = 0, symmetry, PSD, dt=0.",
+   note="'Is the matrix exponential' is decided against an independent oracle only for nilpotent F; for general F the oracles are composition and the differential-equation residual (1e-8 relative to the norms). This check found defect F12 (Van Loan cancellation for strongly damped systems), repaired in /repo commit f80c49b.",
+   technique="TLA+ model in exact rational arithmetic (ProcessExact.tla) checked with TLC over all step partitions + replay into kalman.compute_process_matrices + metamorphic composition on random systems",
+   ref="DESIGN.md s6 C08"),
+ "C14": dict(
+   text="SensorModel.tla defines the layout of EstimationModel (state order and names, dimensions, which slot sits where in P, q, v, G, H, J, the scale/misalignment index data, rejection of walk-without-bias) and the simulator's column naming for every 18-bit enable mask; TLC checks eight consistency invariants on the masks of a slice (quick: all masks of weight <=2 or >=16 plus one seeded slice of 4096; thorough: all 262 144) and prints each layout, which is compared with a real EstimationModel built with a distinct prime in every slot and with Parameters.apply's table; H(r)x = noise-free simulated error and correct_increments(apply(.)) = id are checked per valid mask. SensorEstimates.tla (reset/update/get/output_matrix histories) is model-checked and its simulated behaviours replayed exactly; SensorNoise.tla is the exponent/magnitude table measured noise statistics are validated against.",
+   note="Variance magnitudes are statistical (+-10 % / +-25 %, >= 5 sigma); exponents are exact. Layout comparison is on prime-valued models; estimate arithmetic on multiples of 2^-6.",
+   technique="TLA+ models (SensorModel.tla, SensorEstimates.tla, SensorNoise.tla) checked with TLC over mask slices / update histories + replay of every enumerated layout and simulated history into the real classes",
+   ref="DESIGN.md s6 C14"),
+ "C18": dict(
+   text="StateDiff.tla is compute_state_difference / resample_state / to_180_range as exact integer algebra (values x 60) over all ordered pairs of tables on the tick grid (equal, nested, sub-sampled, offset, different rates, overlapping, disjoint) x column-set pairs x signal pairs incl. heading ramps through +-180; TLC checks SelfZero, ZeroAtKnots, SubsampleZero, IndexRule, Antisymmetric, AngleRange, ResampleAtKnots, ResampleLinear and the wrap law for all (half-)integers in +-1080, and prints the exact expectation for each pair, which is compared with the real functions on DataFrames (index ==, columns ==, values to 1e-9, exact 0.0 in the zero clauses, metres via closed-form radii, (-180,180]), both argument orders, Series pairs, resampling with unsorted/duplicate/outside stamps, every argument form of to_180_range, and perturb_pva recovery.",
+   note="Known findings F6 (1e-13 attitude round-off in zero clauses), F8 (KeyError for partial attitude columns), F9 (median-gap ranking vs nesting) are matched by predicate and printed; the order of the first-order residual of perturbation recovery is not claimed (1e-3 relative).",
+   technique="TLA+ model in exact integer arithmetic (StateDiff.tla) checked with TLC over all table pairs + replay of every enumerated pair into the real transform functions",
+   ref="DESIGN.md s6 C18"),
+})
+
 ORDER = ["C02", "C07", "C08", "C09", "C10", "C12", "C13", "C14", "C18", "C19"]
 m = {
  "version": 1,
